@@ -1,6 +1,6 @@
 (* C12 - MTCP and broadcast (BBC) links deliver exactly what was sent or report failure.
    Only theorem statements closed by [exact <lemma>] and Print Assumptions, plus non-vacuity examples. *)
-From DTN Require Import Base Bbc BbcProofs BbcSafety ConstsOkBbc Mtcp MtcpProofs ConstsOkMtcp.
+From DTN Require Import Base Bbc BbcProofs BbcSafety BbcReuse ConstsOkBbc Mtcp MtcpProofs ConstsOkMtcp SpecMtcp.
 Local Open Scope nat_scope.
 
 (* ======================= BBC ======================= *)
@@ -108,6 +108,77 @@ Proof.
 Qed.
 Print Assumptions C12_bbc_dup_redelivered_refuted.
 
+
+(* Histories on one connector in which transmission ids are used again (the id is one byte: a sender's
+   counter wraps after 256 bundles, another sender may have drawn the same id).
+
+   End of a transmission.  After ANY history h (arbitrary fragments: trains that were delivered, that
+   failed a sequence check, that finished with a payload the decoder rejects - garbage, a truncated
+   bundle, a burst of sixteen lost fragments -, peers' failure fragments), whenever handling a data
+   fragment makes the connector emit anything - a failure fragment or a finished blob - the table
+   holds no entry for that transmission id afterwards; a peer's failure fragment leaves the table
+   untouched and is only handed to Send. *)
+Theorem C12_bbc_end_clears : forall (decodes : list N -> bool) (h : list fragment) f tb1 o1 tb2 o2,
+  handle_all decodes [] h = (tb1, o1) -> handle_fragment decodes tb1 f = (tb2, o2) ->
+  (f_fail f = false -> o2 <> [] -> tbl_find tb2 (f_tid f) = None)
+  /\ (f_fail f = true -> tb2 = tb1 /\ o2 = [OutFailedTid (f_tid f)]).
+Proof. exact bbc_end_clears. Qed.
+Print Assumptions C12_bbc_end_clears.
+
+(* Re-use.  After any history h that leaves no entry for transmission id tid, an intact train under
+   that id (any MTU >= 3, any blob the decoder accepts) is delivered: exactly one blob, the identical
+   one, no failure fragment, and the table is as before. *)
+Theorem C12_bbc_reuse : forall (decodes : list N -> bool) (h : list fragment) tb outs tid mtu blob fs,
+  handle_all decodes [] h = (tb, outs) -> tbl_find tb tid = None ->
+  3 <= mtu -> blob <> [] -> out_fragments tid (mtu - 2) blob = Some fs -> decodes blob = true ->
+  handle_all decodes [] (h ++ fs) = (tb, outs ++ [OutBlob tid blob]).
+Proof.
+  intros decodes h tb outs tid mtu blob fs H1 H2 Hm. apply (bbc_reuse_sent decodes h tb outs tid (mtu - 2) blob fs H1 H2). lia.
+Qed.
+Print Assumptions C12_bbc_reuse.
+
+(* Both together: a transmission ends on fragment f (the connector signals failure or hands the blob
+   up); fragments g of other transmission ids follow at will; then an intact train that uses the id
+   again is delivered identically, without a failure fragment. *)
+Theorem C12_bbc_reuse_after_end : forall (decodes : list N -> bool) (h : list fragment) f (g : list fragment)
+    tb1 o1 tb2 o2 tb3 o3 mtu blob fs,
+  handle_all decodes [] h = (tb1, o1) -> handle_fragment decodes tb1 f = (tb2, o2) ->
+  f_fail f = false -> o2 <> [] ->
+  Forall (fun x => f_tid x <> f_tid f) g -> handle_all decodes tb2 g = (tb3, o3) ->
+  3 <= mtu -> blob <> [] -> out_fragments (f_tid f) (mtu - 2) blob = Some fs -> decodes blob = true ->
+  handle_all decodes tb3 fs = (tb3, [OutBlob (f_tid f) blob]).
+Proof.
+  intros decodes h f g tb1 o1 tb2 o2 tb3 o3 mtu blob fs A B C D E F Hm.
+  apply (bbc_reuse_after_end decodes h f g tb1 o1 tb2 o2 tb3 o3 (mtu - 2) blob fs A B C D E F). lia.
+Qed.
+Print Assumptions C12_bbc_reuse_after_end.
+
+(* The shared outgoing queue (fragmentOut, capacity 64, written with blocking sends by Send and by the
+   failure report of the reading handler, emptied by handlerWrite): every run that has drained
+   transmitted exactly the own fragments and exactly the failure fragments, each in order - a failure
+   report is never lost, however long the own transmission and however slow the modem; while anything
+   is pending some step is enabled, and every run can be completed. *)
+Theorem C12_bbc_queue_lossless : forall cap own fails evs s,
+  Forall (fun f => f_fail f = false) own -> Forall (fun f => f_fail f = true) fails ->
+  bbcq_run cap (bbcq_init own fails) evs = Some s -> bbcq_done s = true ->
+  filter nofail (bq_sent s) = own /\ filter f_fail (bq_sent s) = fails
+  /\ bbcq_sent_ok own fails (bq_sent s) = true
+  /\ length evs = 2 * (length own + length fails).
+Proof. exact bbcq_lossless. Qed.
+Print Assumptions C12_bbc_queue_lossless.
+
+Theorem C12_bbc_queue_drains : forall own fails,
+  Forall (fun f => f_fail f = false) own -> Forall (fun f => f_fail f = true) fails ->
+  forall evs s, bbcq_run (Z.to_nat bbc_queue_cap) (bbcq_init own fails) evs = Some s ->
+  (bbcq_done s = false -> exists e s', bbcq_step (Z.to_nat bbc_queue_cap) s e = Some s')
+  /\ exists evs' s', bbcq_run (Z.to_nat bbc_queue_cap) s evs' = Some s' /\ bbcq_done s' = true.
+Proof.
+  intros own fails H1 H2 evs s Hr.
+  assert (Hc : 1 <= Z.to_nat bbc_queue_cap) by (vm_compute; lia).
+  split; [apply bbcq_progress; exact Hc|apply (bbcq_drains _ own fails Hc H1 H2 evs s Hr)].
+Qed.
+Print Assumptions C12_bbc_queue_drains.
+
 (* ======================= MTCP ======================= *)
 
 (* CBOR byte-string head: written with minimal width, read back exactly, rest of the stream untouched *)
@@ -177,6 +248,26 @@ Example C12_ex_faulty_run :
   snd (handle_all (fun _ => true) [] (map (frag_at [ex_T0; ex_T1]) [(0,0); (1,0); (0,1); (1,1); (0,3)]))
   = [OutBlob 9 [10;11;12;13]; OutFailFrag (new_fragment 7 4 false false true [])]%N.
 Proof. vm_compute. reflexivity. Qed.
+
+(* re-use: train A (id 7) reaches its end mark with a payload the decoder rejects - failure fragment,
+   nothing delivered, id free again -; the intact train B under the same id is delivered *)
+Example C12_ex_reuse :
+  let dec := fun b : list N => match b with 1%N :: _ => true | _ => false end in
+  let A := match out_fragments 7%N 2 [9;9;9;9;9]%N with Some fs => fs | None => [] end in
+  handle_all dec [] (A ++ ex_T0)
+  = ([], [OutFailFrag (new_fragment 7 3 false false true []); OutBlob 7 [1;2;3;4;5;6;7]])%N.
+Proof. vm_compute. reflexivity. Qed.
+
+(* the queue with capacity 2: three own fragments, one failure fragment squeezed in while it is full *)
+Example C12_ex_queue :
+  let own := ex_T0 in let fl := [new_fragment 9 4 false false true []]%N in
+  match bbcq_run 2 (bbcq_init own fl) [BqOwn; BqOwn; BqPop; BqFail; BqPop; BqOwn; BqPop; BqOwn; BqPop; BqPop] with
+  | Some s => bbcq_done s = true /\ bbcq_sent_ok own fl (bq_sent s) = true
+              /\ bbcq_step 2 (bbcq_init own fl) BqPop = None
+  | None => False
+  end
+  /\ bbcq_run 2 (bbcq_init ex_T0 [new_fragment 9 4 false false true []]%N) [BqOwn; BqOwn; BqFail] = None.
+Proof. vm_compute. auto. Qed.
 
 Example C12_ex_mtcp_stream :
   mtcp_client_stream [MKeepalive; MSend [1;2;3]; MKeepalive; MSend [9]]%N = [64; 67;1;2;3;64; 64; 65;9;64]%N
